@@ -54,6 +54,19 @@ func newReplicaSys(c *runCtx, r *rng, k int) *replicaSys {
 	}
 	// identities: created on A, distributed to everybody before any bug work
 	s.authors = mkAuthors(s.reps[0].repo, 3)
+	if r.chance(1, 3) {
+		// the first author — who also writes the merge commits — has a signing key from the start: every
+		// commit in that name is signed, the empty ones that join two branches included
+		keyed, err := identity.NewIdentityFull(s.reps[0].repo, "keyed author", "k@example.com", "", "", []*identity.Key{identity.GenerateKey()})
+		if err != nil {
+			panic(err)
+		}
+		if err := keyed.Commit(s.reps[0].repo); err != nil {
+			panic(err)
+		}
+		s.authors[0] = keyed
+		c.count("replica-systems-with-a-keyed-merge-author")
+	}
 	if _, err := identity.Push(s.reps[0].repo, "origin"); err != nil {
 		panic(err)
 	}
